@@ -184,7 +184,7 @@ theorem applyLock_lvg (db : DB) (hdb : DBI db) (c : Cmd) (data : Option Bytes) (
     have hh1 := (keep_procData (db.enter c.key) .lock (lockCmdOf (db.enter c.key).k c (.update h))
       (frameOf (lockCmdOf (db.enter c.key).k c (.update h)) data) h h).1.mpr hh
     have l2 := l1.updateLocked zero_nonneg h (lockCmdOf (db.enter c.key).k c (.update h)) hh1
-    exact LvG.of_lv ((l2.when _ _ (l2.journalLock _ _)).reply _ _ _ _)
+    exact LvG.wake zero_nonneg (LvG.of_lv ((l2.when _ _ (l2.journalLock _ _)).reply _ _ _ _))
   | relock h =>
     simp only [applyLock]
     have hh := hold h rfl
@@ -197,7 +197,7 @@ theorem applyLock_lvg (db : DB) (hdb : DBI db) (c : Cmd) (data : Option Bytes) (
     have l3 := l2.procData .lock c (frameOf c data) h
     have hh3 := (keep_procData (((db.enter c.key).modR h (fun r => { r with depth := r.depth + 1 })).modK incLocked) .lock c (frameOf c data) h h).1.mpr hh1
     have l4 := l3.updateLocked zero_nonneg h c hh3
-    exact LvG.of_lv ((((l4.journalLock _ _).ctr _)).reply _ _ _ _)
+    exact LvG.wake zero_nonneg (LvG.of_lv ((((l4.journalLock _ _).ctr _)).reply _ _ _ _))
   | grant =>
     simp only [applyLock]
     obtain ⟨ln, hn, _, _, _, hg⟩ := le.newLock zero_nonneg c data
@@ -333,7 +333,7 @@ theorem applyUnlock_lvg (db : DB) (hdb : DBI db) (c : Cmd) (data : Option Bytes)
       l2.modK _ (settleWait_rc zero_nonneg l2.rc) (RecsLe.settleWait _)
     have l4 := LvG.removeIfZero (LvG.of_lv (l3.ctr (fun y => { y with waitCount := y.waitCount - 1 })))
     have l5 := l4.step (FQ.ctr _ (fun y => { y with unLockCount := y.unLockCount + 1 })).fr (fun l => l.ctr _)
-    exact (l5.step (Fr.reply _ _ _ _ _) (fun l => l.reply _ _ _ _)).step (Fr.reply _ _ _ _ _) (fun l => l.reply _ _ _ _)
+    exact LvG.wake zero_nonneg ((l5.step (Fr.reply _ _ _ _ _) (fun l => l.reply _ _ _ _)).step (Fr.reply _ _ _ _ _) (fun l => l.reply _ _ _ _))
   | dec h c' =>
     simp only [applyUnlock]
     have hh := hasRec_of_holder le h (hb h rfl)
